@@ -141,6 +141,13 @@ CHECKS = {
         "Trusted: line granularity (not bytecode); C-level atomicity of deque operations; fake connection writes are atomic; the send lock is replaced by a scheduler-aware lock.",
         "DESIGN.md §2 C16",
     ),
+    "C20": (
+        "exploration",
+        "Hypothesis-generated fault/event scripts run on simulated devices with a harness-owned clock: asyncio gateways on a virtual-time event loop with fake transports; threaded gateways with the real connect/reader/poll threads over fake serial/socket/select/time under a discrete-event scheduler (time advances only when every thread is blocked); reference-supervisor oracle over the callback/dial/write timeline",
+        "Scripts of dial outcomes, data, read/write errors, abrupt and orderly peer closes, user disconnect, stop() and time advances for serial/TCP x threaded/asyncio and reconnect_timeout 0.5/2/10, plus TCP probe-latency patterns; checked: one on_conn_made per connection, one on_conn_lost per ended connection (error passed on / None for user close), dial within RT after every unrequested loss, retries exactly RT apart, silence after stop(), healthy link never dropped, silent link dropped between 2*RT and ~3*RT. Found F14, F15 on the pinned tree.",
+        "Trusted: fidelity of the fake devices to pyserial/socket/asyncio semantics; thread schedules between blocking points are whatever the OS gives (finer races are C16's subject). KNOWN finding F15 (asyncio: no reconnect after an orderly peer close) is counted and printed as KNOWN-FINDING.",
+        "DESIGN.md §2 C20",
+    ),
 }
 
 NOT_YET = {}
